@@ -39,7 +39,8 @@ THEOREMS = [
     "Nix.C10.C10_other_properties_untouched",
     "Nix.C10.C10_reads_change_nothing",
     "Nix.C10.C10_refused_unchanged",
-    "Nix.C10.C10_any_refusal_unchanged_counterexample",
+    "Nix.C10.C10_any_refusal_unchanged",
+    "Nix.C10.C10_kept_object_refusal_unchanged",
     "Nix.C10.C10_check_precedes_write",
     "Nix.C10.C10_wrong_or_mixed_refused",
     "Nix.C10.C10_bool_is_not_int",
@@ -64,38 +65,42 @@ ASSUMPTIONS = [
     "the extra spellings int(s, 16) accepts (sign, 0x, underscores, blanks, non-ASCII digits) are outside the model",
     "keys containing '/' or equal to '.' (h5py path semantics), integer/bool keys for `in`/`[]`/`[]=` on the section, "
     "top-level bytes / set / dict / range / iterator inputs, tuples assigned through section[key] = (...), lone "
-    "surrogates in text, text ending in NUL characters (dropped by numpy's str conversion; open known finding "
-    "C10-text-trailing-nul-dropped, oracle only), a bare np.uint64 scalar >= 2**63 handed to extend_values (wraps "
-    "silently; open known finding C10-bare-uint64-scalar-wraps, oracle only), NaN payloads of float16/float32 *scalars* (quieted by the C cast) are outside the model",
+    "surrogates in text, NaN payloads of float16/float32 *scalars* (quieted by the C cast) are outside the model",
     "floating point values are compared as IEEE bit patterns; np.floatN scalars are represented by their exact "
     "widening to double",
-    "a refusal with ValueError (value of a class get_dtype does not know: None, bytes, complex, nested list) is "
-    "modelled as the code behaves; the property's 'type error' clause is checked for candidates whose elements all "
-    "belong to the four supported types",
-    "h5py refuses a text with an embedded NUL only after the dataset was resized (open known finding "
-    "C10-nul-text-after-resize; Lean witness C10_any_refusal_unchanged_counterexample); every other exception class "
-    "is proved to leave the section unchanged",
+    "a refusal with ValueError (value of a class get_dtype does not know: None, bytes, complex, nested list; text "
+    "containing a NUL character, which an HDF5 variable-length string cannot hold) is modelled as the code behaves; the "
+    "property's 'type error' clause is checked for candidates whose elements all belong to the four supported types",
+    "a kept Property object is modelled as a name for a property id (the only state such an object carries is the HDF5 "
+    "dataset it stands for); an object whose property was deleted, and every object after the file was closed, is "
+    "outside the model (dropped from the table of kept objects on both sides)",
 ]
 TRUSTED_EXTRA = [
-    "hand-written model lean/NixModel/Pure/PropVals.lean of property.py / section.py / datatype.py / container lookups",
+    "hand-written model lean/NixModel/Pure/PropVals.lean (+ PropHandles.lean: kept Property objects) of property.py / "
+    "section.py / datatype.py / container lookups",
 ]
 READY = True
 MANIFEST = {
     "level_text": "Kernel-checked theorems over a Lean model of Property value lists and Section dictionary access, "
                   "for every reachable state (inductive invariant over arbitrary histories of create / assign / "
-                  "extend / clear / attribute / dict-style operations): dtype fixed at creation and every stored cell "
-                  "of that dtype; a successful assignment reads back exactly the converted input, extend appends; the "
-                  "type check precedes resize and write, so a TypeError leaves every existing value list unchanged; "
-                  "wrong-typed or mixed candidates are refused at every element position (bool is not int); "
-                  "len/items/contains/getitem/setitem/delitem agree with the property and subsection lists. The model "
-                  "is tied to nixio by differential execution of random histories on real HDF5 files, comparing the "
-                  "whole section state after every call.",
+                  "extend / clear / attribute / dict-style operations, issued through fresh lookups and through "
+                  "Property objects kept from earlier lookups, in any interleaving): dtype fixed at creation and every "
+                  "stored cell of that dtype; a successful assignment reads back exactly the converted input - through "
+                  "every kept object of the property as well -, extend appends after what is stored now; every check "
+                  "precedes resize and write, so every refused call (TypeError, ValueError, OverflowError, lookup "
+                  "errors) leaves the whole section unchanged; wrong-typed or mixed candidates are refused at every "
+                  "element position (bool is not int); len/items/iteration/contains/getitem/setitem/delitem agree with "
+                  "the property and subsection lists. The model is tied to nixio by differential execution of random "
+                  "histories on real HDF5 files (several Section objects and kept Property objects of the same "
+                  "entities taking turns), comparing the whole section state after every call.",
     "level_note": "Trusted: Lean kernel; axioms propext/Classical.choice/Quot.sound; the hand-written model and the "
                   "harness. Partial: persistence across reopen and HDF5 storage behaviour are tied by correspondence "
-                  "only; a text with an embedded NUL is refused by h5py after the resize (open known finding "
-                  "C10-nul-text-after-resize, C10_any_refusal_unchanged_counterexample).",
-    "technique": "Lean 4 proof (inductive invariant over operation histories, case analysis of the isinstance chain) "
-                 "with differential correspondence on real HDF5 files",
+                  "only; objects of deleted properties / of a closed file are outside the model. The three findings "
+                  "open after round 2 (NUL text refused after the resize, trailing NUL dropped, bare uint64 scalar "
+                  "wrapping) are repaired in /repo (38c9f56, 578a510) and the full refusal theorem is proved.",
+    "technique": "Lean 4 proof (inductive invariant over operation histories, refinement of histories with kept objects "
+                 "to histories of fresh lookups, case analysis of the isinstance chain) with differential correspondence "
+                 "on real HDF5 files",
 }
 
 INT64_MIN, INT64_MAX = -2 ** 63, 2 ** 63 - 1
@@ -705,10 +710,7 @@ class Gen:
     def valid_input(self, kind):
         r = self.rng
         if r.random() < 0.25:
-            v = self.val(kind)
-            if v["c"] == "npInt" and not (INT64_MIN <= int(v["v"]) <= INT64_MAX):
-                return self.as_list([v])     # a bare np.uint64 >= 2**63 is outside the model (wraps silently)
-            return {"scalar": v}
+            return {"scalar": self.val(kind)}
         return self.as_list(self.homog(kind))
 
     def mixed_input(self, kind):
@@ -786,7 +788,12 @@ class Gen:
         if c < 0.93:
             return self.as_list([jint(r.choice([2 ** 63, -2 ** 63 - 1, 2 ** 70, 2 ** 64 - 1]))] +
                                 self.homog("int", r.choice([0, 1, 3]), numpy_ok=False))
-        return self.as_list(self.homog("str", r.choice([0, 1, 2]), numpy_ok=False) + [jstr("a\x00b")])
+        nul = r.choice(["a\x00b", "a\x00", "\x00", "b\x00\x00", "\x00c"])
+        bad = [jnpstr(nul) if r.random() < 0.2 else jstr(nul)]
+        vals = self.homog("str", r.choice([0, 1, 2]), numpy_ok=False)
+        if r.random() < 0.3 and not vals:
+            return {"scalar": bad[0]}
+        return self.as_list(vals + bad if r.random() < 0.6 else bad + vals)
 
     def input_for(self, dtype, profile):
         """an input for assign/extend on a property of this dtype"""
@@ -1047,6 +1054,18 @@ def gen_history(ctx, g, n_ops, junky, im, fixed_prefix=(), handles=True):
 
 
 FIXED_HISTORIES = [
+    # repaired defects 38c9f56 / 578a510 (see ORACLE_FIXED): model and code must agree on them
+    [["create", cps("i"), {"list": [jint(1)]}],
+     ["extend", {"n": cps("i")}, {"scalar": jnpint("uint64", 2 ** 64 - 1)}],
+     ["extend", {"n": cps("i")}, {"scalar": jnpint("uint64", 2 ** 63)}],
+     ["extend", {"n": cps("i")}, {"scalar": jnpint("uint64", 2 ** 63 - 1)}],
+     ["set", {"n": cps("i")}, {"scalar": jnpint("uint64", 2 ** 63)}],
+     ["create", cps("t"), {"list": [jstr("x"), jstr("y")]}],
+     ["set", {"n": cps("t")}, {"list": [jstr("a\x00b")]}], ["set", {"n": cps("t")}, {"list": [jstr("a\x00")]}],
+     ["extend", {"n": cps("t")}, {"list": [jstr("ok"), jstr("b\x00\x00")]}], ["extend", {"n": cps("t")}, {"scalar": jstr("\x00")}],
+     ["extend", {"n": cps("t")}, {"scalar": jnpstr("c\x00")}], ["setitem", cps("t"), {"scalar": jstr("q\x00r")}],
+     ["setitem", cps("u"), {"scalar": jstr("q\x00")}], ["create", cps("v"), {"list": [jstr("\x00")]}], ["items"],
+     ["get", {"n": cps("t")}]],
     # clear-then-extend, extend after reopen
     [["create", cps("a"), {"list": [jint(1), jint(2), jint(3)]}], ["clear", {"n": cps("a")}],
      ["extend", {"n": cps("a")}, {"list": [jint(4)]}], ["reopen"], ["extend", {"n": cps("a")}, {"scalar": jint(5)}],
@@ -1290,12 +1309,8 @@ def _expected_cell(pv):
     return {"s": list(pv["v"])}
 
 
-def _embedded_nul(cp):
-    """a NUL followed by something else (a text that merely *ends* in NULs is an ordinary value)"""
-    t = list(cp)
-    while t and t[-1] == 0:
-        t.pop()
-    return 0 in t
+def _has_nul(cp):
+    return 0 in list(cp)
 
 
 def _out_of_range_int(inp):
@@ -1306,16 +1321,9 @@ def _out_of_range_int(inp):
         any(not (INT64_MIN <= int(v["v"]) <= INT64_MAX) for v in vals)
 
 
-def _trailing_nul(op):
-    inp = op[2] if len(op) > 2 else None
-    if not isinstance(inp, dict):
-        return False
-    vals = [inp["scalar"]] if "scalar" in inp else inp.get("list", [])
-    return any(v.get("c") in ("str", "npStr") and v.get("v") and v["v"][-1] == 0 for v in vals)
-
-
 def classify(inp):
-    """('valid', kind, cells) homogeneous candidate of one of the four types, storable;
+    """('valid', kind, cells) homogeneous candidate of one of the four types, storable
+    ('valid-if-accepted', kind, cells) the same for text containing NUL (may be refused, must not be stored altered);
     ('mixed', kinds) all elements of the four types, more than one type;
     ('array', kind, dt, cells|None) numpy input; None: the property does not say"""
     if inp is None:
@@ -1334,8 +1342,10 @@ def classify(inp):
         k = kinds[0]
         if k == "int" and any(not (INT64_MIN <= int(v["v"]) <= INT64_MAX) for v in vals):
             return None
-        if k == "str" and any(_embedded_nul(v["v"]) for v in vals):
-            return None                      # h5py refuses an embedded NUL (ValueError): not a type matter
+        if k == "str" and any(_has_nul(v["v"]) for v in vals):
+            # an HDF5 variable-length string cannot hold a NUL: refusing is not a type matter and the property does
+            # not ask for it - but if the call succeeds, reading must return exactly this text
+            return ("valid-if-accepted", k, [_expected_cell(v) for v in vals])
         return ("valid", k, [_expected_cell(v) for v in vals])
     if "nd" in inp:
         nd = inp["nd"]
@@ -1475,7 +1485,11 @@ def check_history(ctx, ops, n, label, eager=True):
                 if target is not None and cl is not None and target["dtype"] in MAIN_DTYPES:
                     pk = KIND_OF_DTYPE[target["dtype"]]
                     now = after.get(target["id"])
-                    if cl[0] == "valid" and cl[1] == pk:
+                    if cl[0] == "valid-if-accepted" and cl[1] == pk and "err" in out:
+                        if now is None or now["vals"] != target["vals"]:
+                            fail("a refused assignment changed stored values", k,
+                                 None if now is None else now["vals"][:8], target["vals"][:8], "Property." + kind)
+                    elif cl[0] in ("valid", "valid-if-accepted") and cl[1] == pk:
                         exp = cl[2] if kind != "extend" else target["vals"] + cl[2]
                         if "err" in out:
                             fail("values of the property's own type were refused", k, out["err"], "stored", "Property." + kind)
@@ -1483,7 +1497,7 @@ def check_history(ctx, ops, n, label, eager=True):
                             fail("reading does not return the values last stored" if kind != "extend" else
                                  "extend did not append after the existing values", k,
                                  None if now is None else now["vals"][:8], exp[:8], "Property." + kind)
-                    elif cl[0] in ("valid", "mixed") or (cl[0] == "array" and cl[1] != pk):
+                    elif cl[0] in ("valid", "valid-if-accepted", "mixed") or (cl[0] == "array" and cl[1] != pk):
                         if out.get("err") != "TypeError":
                             fail("values of another type / mixed types were not refused with a type error", k,
                                  out.get("err", "accepted"), "TypeError", "Property._check_new_value_types")
@@ -1505,7 +1519,7 @@ def check_history(ctx, ops, n, label, eager=True):
                     if cl[0] == "mixed":
                         fail("a property was created from mixed-type values", k, "created", "TypeError",
                              "Section.create_property")
-                    elif cl[0] == "valid" and newp:
+                    elif cl[0] in ("valid", "valid-if-accepted") and newp:
                         want_dt = {"bool": "bool", "int": "int64", "float": "float64", "str": "string"}[cl[1]]
                         if newp[0]["dtype"] != want_dt or newp[0]["vals"] != cl[2]:
                             fail("created property does not hold the given values with their type", k,
@@ -1623,9 +1637,11 @@ UINT64_HISTORY = [["create", cps("i"), {"list": [jint(1)]}],
                   ["set", {"n": cps("i")}, {"scalar": jnpint("uint64", 2 ** 63)}]]
 
 ORACLE_FIXED = [
-    ("bare-uint64-scalar", UINT64_HISTORY),            # outside the model (Input.WF): oracle only
+    # repaired in /repo (38c9f56: a bare np.uint64 scalar beyond int64 used to wrap around in extend_values; 578a510: text
+    # containing NUL used to be refused after the resize / to lose its trailing NULs)
+    ("bare-uint64-scalar", UINT64_HISTORY),
     ("nul-text", NUL_HISTORY),
-    ("trailing-nul-text", TRAILING_NUL_HISTORY),      # outside the model (Input.WF): oracle only
+    ("trailing-nul-text", TRAILING_NUL_HISTORY),
     # repaired in /repo (999983a, 563d8d3): overflow used to truncate / zero-pad, failed creates left a property
     ("overflow-after-resize", [["create", cps("i"), {"list": [jint(1), jint(2), jint(3)]}],
                                ["set", {"n": cps("i")}, {"list": [jint(5), jint(2 ** 63)]}],
@@ -1687,51 +1703,11 @@ def oracle(ctx, broken, hints):
     return {"evaluations": evals, "histories": len(histories), "failures": failures}
 
 
-def _has_nul_text(op):
-    inp = op[2] if len(op) > 2 else None
-    if not isinstance(inp, dict):
-        return False
-    vals = [inp["scalar"]] if "scalar" in inp else inp.get("list", [])
-    return any(v.get("c") in ("str", "npStr") and 0 in v.get("v", []) for v in vals)
-
-
 def matches_known(entry, failure):
-    """C10-nul-text-after-resize: a text value with an embedded NUL handed to the values setter / extend_values /
-    section[key] = ... of an existing text property is refused by h5py with ValueError *after* the dataset was
-    resized.  Only that failure on exactly such an operation matches; the UUID-shaped-name defect (D6) and the
-    create/overflow defects are repaired in /repo and their histories stay in the fixed lists."""
-    try:
-        op = model_line(failure.input["ops"][-1])
-        if op[0] == "createh":
-            op = ["create", op[2], op[3]]
-        elif op[0] in ("hset", "hextend"):
-            op = [op[0][1:]] + list(op[1:])
-    except Exception:
-        return False
-    if entry.get("class") == "nul-text-refused-after-resize":
-        return (failure.what == "a refused call changed stored values" and failure.observed == "ValueError"
-                and op[0] in ("set", "extend", "setitem") and _has_nul_text(op))
-    if entry.get("class") == "bare-np-uint64-scalar-wraps":
-        inp = op[2] if len(op) > 2 else None
-        return (failure.what == "an integer outside int64 was accepted and stored as another value"
-                and op[0] == "extend" and isinstance(inp, dict) and "scalar" in inp
-                and inp["scalar"].get("c") == "npInt")
-    if entry.get("class") == "text-trailing-nul-dropped":
-        # np.array(vals, dtype=str) drops trailing NULs: only read-back failures of a store whose text ends in NUL
-        return (op[0] in ("create", "set", "extend", "setitem") and _trailing_nul(op) and failure.what in (
-            "reading does not return the values last stored", "extend did not append after the existing values",
-            "created property does not hold the given values with their type"))
+    """C10 has no open known finding: the three of round 2 (NUL text refused after the resize, trailing NUL dropped, bare
+    np.uint64 scalar wrapping) are repaired in /repo (38c9f56, 578a510); their histories stay in ORACLE_FIXED and in
+    the corpus, so a regression is a VIOLATION again."""
     return False
-
-
-def reproduces(ctx, entry):
-    if entry.get("class") == "nul-text-refused-after-resize":
-        return any(matches_known(entry, f) for f in check_history(ctx, NUL_HISTORY, 999999, "known"))
-    if entry.get("class") == "text-trailing-nul-dropped":
-        return any(matches_known(entry, f) for f in check_history(ctx, TRAILING_NUL_HISTORY, 999997, "known"))
-    if entry.get("class") == "bare-np-uint64-scalar-wraps":
-        return any(matches_known(entry, f) for f in check_history(ctx, UINT64_HISTORY, 999996, "known"))
-    return True
 
 
 def replay_failure(ctx, fj):
